@@ -20,6 +20,7 @@ import (
 	"encoding/json"
 	"fmt"
 	"hash/fnv"
+	stdbig "math/big"
 	"math/rand"
 	"os"
 	"sort"
@@ -51,10 +52,39 @@ type world struct {
 	byAddr  map[string]string // bech32 -> name
 	denoms  []string
 	allowed []string
+	unit    map[string]*stdbig.Int // "scaled" histories: base units per logged unit of a denomination
+}
+
+// Scaled histories: the specification's integers are TLC's (32 bit); real locked balances are not.  In a scaled
+// history every amount of some denominations is a multiple of a large unit (2^61, 10^18, 2^64+1): the chain works on
+// k * unit, the log carries k.  Lockup only adds and subtracts, so every amount it has to answer is a multiple; an
+// answer that is not (a wrapped machine word, a truncated conversion) is logged as -1, which no step of the
+// specification explains.  nextUnit is read by newWorld (set by TestRecord only, which is sequential).
+var nextUnit map[string]*stdbig.Int
+
+func (w *world) toLog(d string, v osmomath.Int) int64 {
+	if u := w.unit[d]; u != nil {
+		q, r := new(stdbig.Int).QuoRem(v.BigInt(), u, new(stdbig.Int))
+		if r.Sign() != 0 || !q.IsInt64() || q.Int64() > 2_000_000_000 {
+			return -1
+		}
+		return q.Int64()
+	}
+	if !v.IsInt64() {
+		return -1
+	}
+	return v.Int64()
+}
+
+func (w *world) fromLog(d string, v int64) osmomath.Int {
+	if u := w.unit[d]; u != nil {
+		return osmomath.NewIntFromBigInt(new(stdbig.Int).Mul(stdbig.NewInt(v), u))
+	}
+	return osmomath.NewInt(v)
 }
 
 func newWorld(t *testing.T, names, denoms []string, fund map[string]map[string]int64, allowed []string, now int64) *world {
-	w := &world{World: apphelp.New(t), names: names, denoms: denoms, byAddr: map[string]string{}, allowed: allowed}
+	w := &world{World: apphelp.New(t), names: names, denoms: denoms, byAddr: map[string]string{}, allowed: allowed, unit: nextUnit}
 	w.Ctx = w.Ctx.WithBlockTime(baseTime.Add(time.Duration(now) * time.Second)).WithBlockHeight(1000)
 	for i, n := range names {
 		a := apphelp.Acct(i + 1)
@@ -63,7 +93,7 @@ func newWorld(t *testing.T, names, denoms []string, fund map[string]map[string]i
 		cs := sdk.Coins{}
 		for _, d := range denoms {
 			if v := fund[n][d]; v > 0 {
-				cs = cs.Add(sdk.NewCoin(d, osmomath.NewInt(v)))
+				cs = cs.Add(sdk.NewCoin(d, w.fromLog(d, v)))
 			}
 		}
 		if !cs.Empty() {
@@ -117,11 +147,7 @@ func (w *world) coinMap(cs sdk.Coins) map[string]int64 {
 		m[d] = 0
 	}
 	for _, c := range cs {
-		if !c.Amount.IsInt64() {
-			m[c.Denom] = -1
-		} else {
-			m[c.Denom] = c.Amount.Int64() // a denomination outside the history's set shows up as an extra key
-		}
+		m[c.Denom] = w.toLog(c.Denom, c.Amount) // a denomination outside the history's set shows up as an extra key
 	}
 	return m
 }
@@ -281,9 +307,7 @@ func (w *world) accProbes(ctx sdk.Context, maxDur int64) [][]any {
 				}()
 				v := w.App.LockupKeeper.GetPeriodLocksAccumulation(ctx, lockuptypes.QueryCondition{
 					LockQueryType: lockuptypes.ByDuration, Denom: d, Duration: time.Duration(x) * time.Second})
-				if v.IsInt64() {
-					n = v.Int64()
-				}
+				n = w.toLog(d, v)
 			}()
 			res = append(res, []any{d, x, n})
 		}
@@ -357,7 +381,7 @@ func (w *world) coins(d string, amt int64) sdk.Coins {
 	if amt == 0 {
 		return sdk.Coins{}
 	}
-	return sdk.Coins{sdk.Coin{Denom: d, Amount: osmomath.NewInt(amt)}}
+	return sdk.Coins{sdk.Coin{Denom: d, Amount: w.fromLog(d, amt)}}
 }
 
 // exec performs one call on ctx.  "advance" is handled by the callers (it changes the context).
@@ -376,7 +400,7 @@ func (w *world) exec(ctx sdk.Context, c call) outcome {
 		return out
 	case "add":
 		return tryOn(ctx, func(cc sdk.Context) error {
-			_, err := k.AddTokensToLockByID(cc, c.ID, w.addr(c.O), sdk.NewCoin(c.D, osmomath.NewInt(c.Amt)))
+			_, err := k.AddTokensToLockByID(cc, c.ID, w.addr(c.O), sdk.NewCoin(c.D, w.fromLog(c.D, c.Amt)))
 			return err
 		})
 	case "begin":
@@ -514,10 +538,7 @@ func (w *world) ask(ctx sdk.Context, q query) (res query) {
 		res.C = w.coinMap(k.GetModuleBalance(ctx))
 	case "LockedDenom":
 		v := k.GetLockedDenom(ctx, q.D, du)
-		res.V = -1
-		if v.IsInt64() {
-			res.V = v.Int64()
-		}
+		res.V = w.toLog(q.D, v)
 	case "LockByID":
 		l, err := k.GetLockByID(ctx, uint64(q.X))
 		if err == nil {
@@ -874,7 +895,18 @@ func TestRecord(t *testing.T) {
 				allowed = append(allowed, n)
 			}
 		}
+		// every third history is scaled: sums of a few locks cross 2^63 and 2^64
+		nextUnit = nil
+		switch h % 6 {
+		case 2:
+			nextUnit = map[string]*stdbig.Int{"aaa": new(stdbig.Int).Lsh(stdbig.NewInt(1), 61), "bbb": new(stdbig.Int).Exp(stdbig.NewInt(10), stdbig.NewInt(18), nil)}
+			counts["history:scaled"]++
+		case 5:
+			nextUnit = map[string]*stdbig.Int{"aaab": new(stdbig.Int).Add(new(stdbig.Int).Lsh(stdbig.NewInt(1), 64), stdbig.NewInt(1)), "aaa": new(stdbig.Int).Exp(stdbig.NewInt(10), stdbig.NewInt(16), nil)}
+			counts["history:scaled"]++
+		}
 		w := newWorld(t, names, denoms, fund, allowed, 100)
+		nextUnit = nil
 		r := &recorder{w: w, rng: rng, tw: tw, durs: defaultDurations, maxProbe: defaultMaxProbe}
 		if h%4 == 3 {
 			r.durs = []int64{}
